@@ -263,8 +263,18 @@ func definitelyError(v ssa.Value, d int) bool {
 		return len(x.Edges) > 0
 	case *ssa.UnOp:
 		if x.Op == token.MUL {
-			_, isG := x.X.(*ssa.Global)
-			return isG
+			if _, isG := x.X.(*ssa.Global); isG {
+				return true
+			}
+			// a result spilled to a local because the function has a defer: the store that reaches this load in its block
+			if al, ok := x.X.(*ssa.Alloc); ok {
+				blk := x.Block()
+				for i := instrIndex(x) - 1; i >= 0; i-- {
+					if st, ok := blk.Instrs[i].(*ssa.Store); ok && st.Addr == ssa.Value(al) {
+						return definitelyError(st.Val, d+1)
+					}
+				}
+			}
 		}
 	}
 	return false
